@@ -123,12 +123,17 @@ prop("C12", "exploration",
      "plus a sequential handful up to 2^31-1), hostile Put shapes {whole, shorter length, tail b[k:], clipped head b[:k:k], zero-capacity view, foreign window of a larger array with canary "
      "margins}, runtime.GC twice at seed-chosen moments; concurrent histories from 2/4/16 goroutines on a shared pool. Monitor: a ledger (interval map) of outstanding address ranges - every "
      "Get must have len==n, cap>=n, be disjoint from every outstanding range and stay inside the range donated by the Put it came from; every held slice carries a handle-specific pattern "
-     "verified at Put and at the end. distinct_nontrivial = distinct (operation, size class or Put shape, fresh/recycled) tuples checked. Thorough adds -race (=> checkptr) and -asan builds",
+     "verified at Put and at the end. In situ: the framework's own calls of the two pools are redirected (vinstr -pool) to wrappers that keep the same kind of ledger while the C02 (thorough also "
+     "C01, C04) engine workloads run: a Get overlapping memory the framework obtained earlier and has not returned, or a pooled ring that is still held / not empty, is a violation. "
+     "distinct_nontrivial = distinct (operation, size class or Put shape, fresh/recycled) tuples checked plus engine cases. Thorough adds -race (=> checkptr) and -asan builds",
      [
          {"harness": "pool", "args": {"quick": ["--mode", "all", "--n", "600"], "thorough": ["--mode", "all"]}, "timeout": {"quick": 600, "thorough": 3400}},
          {"harness": "pool", "race": True, "args": {"quick": ["--mode", "all", "--n", "80"], "thorough": ["--mode", "all", "--n", "3000"]}, "timeout": {"quick": 600, "thorough": 3400}, "crash_is_violation": True},
          {"harness": "pool", "asan": True, "tiers": ["thorough"], "args": {"thorough": ["--mode", "all", "--n", "3000"]}, "timeout": {"thorough": 3400}, "crash_is_violation": True},
          {"harness": "pool", "tiers": ["thorough"], "args": {"thorough": ["--mode", "huge"]}, "timeout": {"thorough": 1200}},
+         {"harness": "eng", "flavour": "shim+pool", "args": {"quick": ["--mode", "c02", "--n", "5"], "thorough": ["--mode", "c02", "--n", "40"]}, "timeout": {"quick": 600, "thorough": 3400}},
+         {"harness": "eng", "flavour": "shim+pool", "tiers": ["thorough"], "args": {"thorough": ["--mode", "c01", "--n", "40"]}, "timeout": {"thorough": 3400}},
+         {"harness": "eng", "flavour": "shim+pool", "tiers": ["thorough"], "args": {"thorough": ["--mode", "c04", "--n", "40"]}, "timeout": {"thorough": 3400}},
      ],
      "Ledger monitor over the real pools plus Go's checkptr/ASan instrumentation: aliasing is a relation between two live slices, so it is checked against the set of outstanding "
      "address ranges at every Get, not by sampling contents only.",
